@@ -481,3 +481,57 @@ def step_residuals(res, cls, time, pp, m_i, m_f, tol=1e-11, check_row0=False, al
         t0 = tol * ((1 + 4 * np.abs(k0)) * xinf + np.abs(m_f[:-1]) * (1 + np.abs(k0))) + floor
         out["row0_worst_ratio"] = float(np.max(np.abs(r0) / t0))
     return out
+
+
+# ------------------------------------------------------------------------------------------
+# "users of a result only read it": recovery queries, the interpolator and the plotting helpers
+# ------------------------------------------------------------------------------------------
+def reread_after_use(ck, desc, res, fluid, pp_seen, t_seen, caller_time=None, plots=True):
+    """Ask the simulated object everything a user would (both recoveries, the interpolator, the three
+    plotting helpers with non-default options on the Agg backend) and then re-read what simulate()
+    published: the field, the stored times and the caller's own time array are bit for bit what the
+    contract saw. Returns True when nothing changed."""
+    t_seen = np.array(t_seen, dtype=float, copy=True)
+    caller_before = None if caller_time is None else np.array(caller_time, copy=True)
+    with np.errstate(all="ignore"), warnings.catch_warnings():
+        warnings.simplefilter("ignore")
+        try:
+            res.recovery_factor()
+            if fluid is not None and "density" in getattr(fluid, "pvt_props", {}):
+                res.recovery_factor(density=True)
+            res.recovery_factor()
+            res.recovery_factor_interpolator()
+        except Exception as e:  # noqa: BLE001
+            ck.count(f"recovery_query_raised.{type(e).__name__}")
+        if plots and pp_seen.shape[0] >= 2:
+            try:
+                import matplotlib
+
+                matplotlib.use("Agg")
+                import matplotlib.pyplot as plt
+
+                import bluebonnet.plotting as bp
+
+                bp.plot_pseudopressure(res, every=max(1, pp_seen.shape[0] // 3), rescale=True)
+                bp.plot_pseudopressure(res, every=1, rescale=False)
+                bp.plot_recovery_factor(res, change_ticks=True)
+                bp.plot_recovery_rate(res)
+                plt.close("all")
+                ck.count("fields_reread_after_plotting")
+            except Exception as e:  # noqa: BLE001
+                ck.count(f"plotting_raised.{type(e).__name__}")
+    live = np.asarray(res.pseudopressure)
+    ok = True
+    if live.shape != pp_seen.shape or not np.array_equal(live, pp_seen, equal_nan=True):
+        bad = np.argwhere(~((live == pp_seen) | (np.isnan(live) & np.isnan(pp_seen)))) if live.shape == pp_seen.shape else []
+        ck.violation("simulated-values-unchanged-by-their-users", {"what": "pseudopressure", "n_changed": int(len(bad)), "first": bad[:3].tolist() if len(bad) else None}, desc)
+        ok = False
+    lt = np.asarray(res.time, dtype=float)
+    if lt.shape != t_seen.shape or not np.array_equal(lt, t_seen):
+        ck.violation("simulated-values-unchanged-by-their-users", {"what": "stored time stamps", "first_now": float(lt[0]) if lt.size else None, "first_simulated": float(t_seen[0]) if t_seen.size else None}, desc)
+        ok = False
+    if caller_before is not None and not np.array_equal(np.asarray(caller_time), caller_before):
+        ck.violation("simulated-values-unchanged-by-their-users", {"what": "the caller's own time array"}, desc)
+        ok = False
+    ck.count("fields_reread_after_recovery_queries")
+    return ok
